@@ -434,7 +434,7 @@ Proof.
   - apply in_seq. split; [lia|]. simpl. apply nth_error_Some.
     unfold slot_events in H. destruct (nth_error kinds i); [discriminate|destruct H].
   - unfold slot_outcomes. unfold slot_events in *.
-    destruct (nth_error kinds i) as [[]|]; auto. destruct H.
+    destruct (nth_error kinds i) as [[]|]; auto; simpl in *; tauto.
 Qed.
 
 Lemma arrivals_in_produced kinds order e : In e (arrivals kinds order) -> In e (produced kinds).
@@ -475,6 +475,7 @@ Proof.
     unfold arrivals. apply in_flat_map. exists i. split.
     + apply Hcov. apply in_nonsilent. exists KComplete. auto.
     + unfold slot_events. rewrite E. left. reflexivity.
+  - discriminate.
   - discriminate.
 Qed.
 
